@@ -86,6 +86,7 @@ fn base_cfg(seed: u64, i: usize) -> (Vec<Row>, HybridCfg) {
         timeout: Duration::from_secs(120),
         tamper: None,
         more_tampers: vec![],
+        grace_after_other_failure: None,
         stop_on_error_of: 0b111,
     };
     (rows, cfg)
@@ -176,6 +177,12 @@ fn tamper_reveal_case(env: &Env, src: &mut Src<'_>) -> CaseResult {
 }
 
 fn tamper_with(env: &Env, src: &mut Src<'_>, only: Option<&str>, bases: std::ops::Range<usize>) -> CaseResult {
+    tamper_with_dir(env, src, only, bases, false)
+}
+
+/// `incoming`: the edited message is one the corrupt helper *receives* (its own view is falsified
+/// and its honest code carries the falsification into everything it sends afterwards)
+fn tamper_with_dir(env: &Env, src: &mut Src<'_>, only: Option<&str>, bases: std::ops::Range<usize>, incoming: bool) -> CaseResult {
     let bi = bases.start + src.idx(bases.len());
     let base = match baseline(env.seed, bi) {
         Ok(b) => b,
@@ -187,14 +194,20 @@ fn tamper_with(env: &Env, src: &mut Src<'_>, only: Option<&str>, bases: std::ops
     let corrupt = src.idx(3);
     // hierarchical stratification: at each gate depth choose one of the distinct next components
     // uniformly, so that every protocol step (not only the 256-fold bit steps) is hit
-    let mut cand: Vec<usize> = (0..base.by_sender[corrupt].len()).filter(|c| only.is_none_or(|o| base.by_sender[corrupt][*c].0.gate.contains(o))).collect();
+    // the channels the edit may hit: sent by the corrupt helper, or (incoming) received by it
+    let pool: Vec<&(ChannelKey, Vec<usize>)> = if incoming {
+        (0..3).filter(|q| *q != corrupt).flat_map(|q| base.by_sender[q].iter()).filter(|(k, _)| k.dest == corrupt).collect()
+    } else {
+        base.by_sender[corrupt].iter().collect()
+    };
+    let mut cand: Vec<usize> = (0..pool.len()).filter(|c| only.is_none_or(|o| pool[*c].0.gate.contains(o))).collect();
     if cand.is_empty() {
         return Ok(CaseOk::new(false, &0u8, serde_json::Value::Null).label("no-matching-channel"));
     }
     for depth in 2..7 {
         let mut m: BTreeMap<&str, Vec<usize>> = BTreeMap::new();
         for &c in &cand {
-            let comp = base.by_sender[corrupt][c].0.gate.split('/').nth(depth).unwrap_or("");
+            let comp = pool[c].0.gate.split('/').nth(depth).unwrap_or("");
             m.entry(comp).or_default().push(c);
         }
         if m.len() > 1 {
@@ -204,7 +217,7 @@ fn tamper_with(env: &Env, src: &mut Src<'_>, only: Option<&str>, bases: std::ops
         }
     }
     let ch = cand[src.idx(cand.len())];
-    let (key, chunks) = &base.by_sender[corrupt][ch];
+    let (key, chunks) = pool[ch];
     let ordinal = match src.below(3) {
         0 => 0,
         1 => chunks.len() - 1,
@@ -230,11 +243,15 @@ fn tamper_with(env: &Env, src: &mut Src<'_>, only: Option<&str>, bases: std::ops
     let honest = [(corrupt + 1) % 3, (corrupt + 2) % 3];
     cfg.stop_on_error_of = (1 << honest[0]) | (1 << honest[1]);
     cfg.timeout = (base.elapsed * 20).max(Duration::from_secs(5));
-    let cj = json!({"base": bi, "base_cfg": base.cfg.json(), "corrupt": corrupt, "channel": {"gate": key.gate, "dest": key.dest, "shard": key.shard},
+    cfg.grace_after_other_failure = Some((base.elapsed * 4).max(Duration::from_millis(1500)));
+    let cj = json!({"base": bi, "base_cfg": base.cfg.json(), "corrupt": corrupt, "edited_message": if incoming { "received by the corrupt helper" } else { "sent by the corrupt helper" }, "channel": {"gate": key.gate, "source": key.source, "dest": key.dest, "shard": key.shard},
                     "ordinal": ordinal, "len": len, "edit": format!("{edit:?}")});
     let res = run_hybrid(&cfg, &base.rows);
     let prefix = gate_prefix(&key.gate, 3);
     let mut labels = vec![format!("edit:{ename}"), format!("corrupt:H{}", corrupt + 1), format!("step:{prefix}"), format!("shards:{}", cfg.shards)];
+    if incoming {
+        labels.push("edited:incoming".into());
+    }
     if !res.tamper_fired || !res.tamper_changed {
         labels.push(if res.tamper_fired { "edit-no-change".into() } else { "edit-not-fired".into() });
         return Ok(CaseOk::new(false, &0u8, serde_json::Value::Null).labels(labels));
@@ -258,14 +275,14 @@ fn tamper_with(env: &Env, src: &mut Src<'_>, only: Option<&str>, bases: std::ops
             Ok(h) => {
                 let diff: Vec<_> = (0..h.len().min(256)).filter(|i| h[*i] != base.hist[*i]).take(5).map(|i| json!({"bucket": i, "got": h[i].to_string(), "want": base.hist[i].to_string()})).collect();
                 return Err(violation(
-                    format!("accepted-different:{}", gate_prefix(&key.gate, 2)),
+                    format!("accepted-different:{}{}", if incoming { "own-view:" } else { "" }, gate_prefix(&key.gate, 2)),
                     format!("tampering by H{} on {} -> H{} was accepted by both honest helpers and changes the result: {}", corrupt + 1, key.gate, key.dest + 1, serde_json::to_string(&diff).unwrap()),
                     cj,
                 ));
             }
             Err(e) => {
                 return Err(violation(
-                    format!("accepted-undetermined:{}", gate_prefix(&key.gate, 2)),
+                    format!("accepted-undetermined:{}{}", if incoming { "own-view:" } else { "" }, gate_prefix(&key.gate, 2)),
                     format!("tampering by H{} on {} -> H{}: honest helpers returned Ok but their shares do not determine a result: {e}", corrupt + 1, key.gate, key.dest + 1),
                     cj,
                 ));
@@ -283,6 +300,131 @@ fn tamper_with(env: &Env, src: &mut Src<'_>, only: Option<&str>, bases: std::ops
         labels,
         sample: json!({"case": cj, "verdict": verdict, "elapsed_ms": res.elapsed.as_millis() as u64}),
     })
+}
+
+/// The structured attack on the vectorised MAC multiplication of the pseudonym computation: the
+/// corrupt helper adds an error *vector* (one lane; +d/-d on two lanes; the same d on all lanes) to
+/// one 16-lane record of the product share it sends in `mult_mask_with_p_r_f_input`, and then lies
+/// consistently when z is opened: the same vector on the copy it sends to its other neighbour and
+/// on the two copies it receives itself (its own view).
+fn tamper_prf_lanes_case(env: &Env, src: &mut Src<'_>) -> CaseResult {
+    const LANES: usize = 16;
+    let bi = src.idx(N_BASE);
+    let base = match baseline(env.seed, bi) {
+        Ok(b) => b,
+        Err(e) => return Ok(CaseOk::new(false, &0u8, serde_json::Value::Null).label(format!("baseline-unusable:{}", e.chars().take(40).collect::<String>()))),
+    };
+    let corrupt = src.idx(3);
+    let (left, right) = ((corrupt + 2) % 3, (corrupt + 1) % 3);
+    // the [x*y] part of the multiplication goes to the left neighbour; its r*x twin runs in a child step
+    let muls: Vec<&(ChannelKey, Vec<usize>)> = base.by_sender[corrupt].iter().filter(|(k, _)| k.gate.contains("eval_prf") && k.gate.ends_with("mult_mask_with_p_r_f_input") && k.dest == left).collect();
+    if muls.is_empty() {
+        return Ok(CaseOk::new(false, &0u8, serde_json::Value::Null).label("no-matching-channel"));
+    }
+    let (mkey, mchunks) = muls[src.idx(muls.len())];
+    let rec_bytes = LANES * 32;
+    if mchunks.is_empty() || mchunks[0] < rec_bytes || mchunks[0] % rec_bytes != 0 {
+        return Ok(CaseOk::new(false, &0u8, serde_json::Value::Null).label("unexpected-record-layout"));
+    }
+    let recs = mchunks[0] / rec_bytes;
+    let record = if src.bool() { 0 } else { src.idx(recs) };
+    let mut d = [0u8; 32];
+    d[0] = 1 + src.below(255) as u8;
+    if src.bool() {
+        for b in d.iter_mut().take(16).skip(1) {
+            *b = src.below(256) as u8;
+        }
+    }
+    // -d mod l via the field itself
+    let neg = {
+        use crate::ff::{Serializable, ec_prime_field::Fp25519};
+        use crate::secret_sharing::SharedValue;
+        let ga = generic_array::GenericArray::<u8, typenum::U32>::from(d);
+        let v = Fp25519::ZERO - Fp25519::deserialize_infallible(&ga);
+        let mut out = generic_array::GenericArray::<u8, typenum::U32>::default();
+        v.serialize(&mut out);
+        <[u8; 32]>::from(out)
+    };
+    let shape = src.pick(&["two-lanes-zero-sum", "one-lane", "all-lanes-same"]);
+    let (l0, l1) = {
+        let a = src.idx(LANES);
+        (a, (a + 1 + src.idx(LANES - 1)) % LANES)
+    };
+    let errors: Vec<(usize, [u8; 32])> = match shape {
+        "two-lanes-zero-sum" => vec![(l0, d), (l1, neg)],
+        "one-lane" => vec![(l0, d)],
+        _ => (0..LANES).map(|l| (l, d)).collect(),
+    };
+    let edit = Edit::Fp25519Add { record, lanes_per_record: LANES, errors };
+    let lie = src.pick(&["consistent", "consistent", "message-only"]);
+    let same = |k: &ChannelKey| k.shard == mkey.shard && k.gate.contains("eval_prf") && k.gate.ends_with("revealz");
+    let mut tampers = vec![Tamper { key: mkey.clone(), ordinal: 0, edit: edit.clone() }];
+    let mut copies = 0;
+    if lie == "consistent" {
+        for (k, c) in &base.by_sender[corrupt] {
+            if same(k) && k.dest == right && c.first() == mchunks.first() {
+                tampers.push(Tamper { key: k.clone(), ordinal: 0, edit: edit.clone() });
+                copies += 1;
+            }
+        }
+        for q in [left, right] {
+            for (k, c) in &base.by_sender[q] {
+                if same(k) && k.dest == corrupt && c.first() == mchunks.first() {
+                    tampers.push(Tamper { key: k.clone(), ordinal: 0, edit: edit.clone() });
+                    copies += 1;
+                }
+            }
+        }
+    }
+    let mut cfg = base.cfg.clone();
+    cfg.tamper = Some(tampers.remove(0));
+    cfg.more_tampers = tampers;
+    let honest = [right, left];
+    cfg.stop_on_error_of = (1 << honest[0]) | (1 << honest[1]);
+    cfg.timeout = (base.elapsed * 20).max(Duration::from_secs(5));
+    cfg.grace_after_other_failure = Some((base.elapsed * 4).max(Duration::from_millis(1500)));
+    let cj = json!({"base": bi, "base_cfg": base.cfg.json(), "corrupt": corrupt, "multiplication": {"gate": mkey.gate, "dest": mkey.dest, "shard": mkey.shard}, "record": record,
+                    "error_vector": shape, "lanes": [l0, l1], "lie": lie, "opening_copies_falsified": copies});
+    let res = run_hybrid(&cfg, &base.rows);
+    let mut labels = vec![format!("vector:{shape}"), format!("lie:{lie}"), format!("corrupt:H{}", corrupt + 1), format!("opening-copies:{copies}")];
+    if !res.tamper_fired || !res.tamper_changed {
+        labels.push(if res.tamper_fired { "edit-no-change".into() } else { "edit-not-fired".into() });
+        return Ok(CaseOk::new(false, &0u8, serde_json::Value::Null).labels(labels));
+    }
+    let honest_failed = honest.iter().any(|h| res.outcomes[*h].iter().any(|o| o.as_ref().is_some_and(|o| !o.is_ok())));
+    let verdict;
+    if honest_failed {
+        verdict = "detected";
+    } else if res.timed_out || honest.iter().any(|h| res.outcomes[*h].iter().any(Option::is_none)) {
+        verdict = "no-output";
+    } else {
+        let out = |h: usize| match &res.outcomes[h][0] {
+            Some(HelperOutcome::Ok(v)) => v.clone(),
+            _ => unreachable!(),
+        };
+        match reconstruct2(&out(honest[0]), &out(honest[1])) {
+            Ok(h) if h == base.hist => verdict = "unchanged",
+            Ok(h) => {
+                let diff: Vec<_> = (0..h.len().min(256)).filter(|i| h[*i] != base.hist[*i]).take(5).map(|i| json!({"bucket": i, "got": h[i].to_string(), "want": base.hist[i].to_string()})).collect();
+                return Err(violation(
+                    format!("accepted-different:prf-lanes:{shape}"),
+                    format!("H{} added a {shape} error vector to record {record} of its product share in {} ({lie}) and both honest helpers accepted a different result: {}", corrupt + 1, mkey.gate, serde_json::to_string(&diff).unwrap()),
+                    cj,
+                ));
+            }
+            Err(e) => {
+                return Err(violation(format!("accepted-undetermined:prf-lanes:{shape}"), format!("H{} added a {shape} error vector in {}: honest helpers returned Ok but their shares do not determine a result: {e}", corrupt + 1, mkey.gate), cj));
+            }
+        }
+    }
+    labels.push(format!("verdict:{verdict}"));
+    Ok(CaseOk { nontrivial: true, digest: digest(&(bi, corrupt, &mkey.gate, mkey.shard, shape, lie, record, l0, l1)), labels, sample: json!({"case": cj, "verdict": verdict, "elapsed_ms": res.elapsed.as_millis() as u64}) })
+}
+
+/// any single message the corrupt helper receives is falsified (its honest code then computes on
+/// the falsified value): a deviation that single edits of *sent* messages cannot express
+fn tamper_incoming_case(env: &Env, src: &mut Src<'_>) -> CaseResult {
+    tamper_with_dir(env, src, None, 0..N_BASE, true)
 }
 
 /// A deviating helper that lies *consistently* about one opening: the same edit is applied to the
@@ -372,6 +514,7 @@ fn tamper_view_case(env: &Env, src: &mut Src<'_>) -> CaseResult {
     let honest = [(corrupt + 1) % 3, (corrupt + 2) % 3];
     cfg.stop_on_error_of = (1 << honest[0]) | (1 << honest[1]);
     cfg.timeout = (base.elapsed * 20).max(Duration::from_secs(5));
+    cfg.grace_after_other_failure = Some((base.elapsed * 4).max(Duration::from_millis(1500)));
     let cj = json!({"base": bi, "base_cfg": base.cfg.json(), "corrupt": corrupt, "opening": {"gate": key.gate, "shard": key.shard}, "mode": mode,
                     "falsified_copies": n_edits, "of_which_received_by_the_corrupt_helper": incoming, "ordinal": ordinal, "len": len, "edit": format!("{edit:?}")});
     let res = run_hybrid(&cfg, &base.rows);
@@ -456,6 +599,12 @@ pub fn subs(_env: &Env) -> Vec<Sub> {
         .shrink_iters(16),
         Sub::random("tamper_reveal", 40, 400, 6_000, tamper_reveal_case,
             "same as `tamper`, restricted to channels of steps whose gate contains `reveal` (openings of pseudonyms, breakdown keys, share-conversion masks, MAC keys): the receiver gets two copies of the missing share and must refuse to open when they differ")
+        .shrink_iters(16),
+        Sub::random("tamper_prf_lanes", 40, 200, 4_000, tamper_prf_lanes_case,
+            "structured attack on the 16-lane MAC multiplication of the pseudonym computation inside the whole query: an error vector (one lane; +d/-d on two lanes; the same d on all lanes) on one record of the corrupt helper's product share in mult_mask_with_p_r_f_input, alone or repeated consistently in the opening of z (the copy sent to the other neighbour and the two copies the corrupt helper receives); same oracle as `tamper`")
+        .shrink_iters(16),
+        Sub::random("tamper_incoming", 40, 400, 8_000, tamper_incoming_case,
+            "same generator and oracle as `tamper`, but the edited message is one the corrupt helper *receives* (any step): the helper's own honest code computes on a falsified view, so everything it sends afterwards deviates consistently with it - an adaptive deviation confined to one helper")
         .shrink_iters(16),
         Sub::random("tamper_view", 40, 400, 6_000, tamper_view_case,
             "a helper that lies consistently about one opening: one edit (bit flip or small addition at a generated position, biased to the first lanes) applied to the copy it sends to one peer / to all peers AND to every copy it receives for the same opening (its own view, so that its honest code continues with the falsified value), or to the received copies only; same oracle as `tamper`. Reaches what single-message edits cannot: an opening check that is missing on one receiver is otherwise masked by the corrupt helper's own later inconsistency")
